@@ -60,7 +60,7 @@ def validate(module, cfg, traces, tag, shards=16, timeout=1800, deque=False, kee
     for j, b in enumerate(bins):
         f = os.path.join(outdir, "shard%02d.json" % j)
         with open(f, "w") as fh:
-            json.dump([_clean({k: traces[i][k] for k in ("cfg", "ev", "expect")}) for i in b], fh)
+            json.dump([_clean({k: v for k, v in traces[i].items() if k != "meta"}) for i in b], fh)
         files.append(f)
     t0 = time.time()
     with ThreadPoolExecutor(max_workers=nsh) as ex:
